@@ -1,3 +1,6 @@
 import Driver.Util
 import Driver.Core
 import Driver.Layers
+import Driver.CApi
+import Driver.Keys
+import Driver.Cli
